@@ -473,7 +473,7 @@ RE_ENTRY = ['lookup', 'lookup1', 'queryAdapter', 'adapter_hook', 'lookupAll', 's
             'names']
 RE_POINT = ['uncached-before', 'uncached-after', 'lazy-required', 'providedBy-descriptor', 'factory', 'provided-hash',
             'value-destructor', 'name-hash', 'required-key-eq', 'unhashable-provided-error-path',
-            'super-subclass-computed-self', 'uncached-raises-error-path']
+            'super-subclass-computed-self', 'uncached-raises-error-path', 'generation-property']
 RE_MUT = ['register-more-specific', 'unregister', 'subscribe', 'changed-only', 'rebase', 'register-then-lookup-other-key']
 RE_WARM = ['cold', 'warm-other-key', 'warm-same-key-then-changed']
 
@@ -523,6 +523,8 @@ def run_reent(program):
         return None
     if pt == 'name-hash' and en in ('lookupAll', 'subscriptions', 'names', 'subscribers'):
         return None
+    if pt == 'generation-property' and flav != 1:
+        return None          # only verifying registries read the generations of their bases
 
     if pt == 'unhashable-provided-error-path':
         if mut != 0 or warm != 0:
@@ -547,6 +549,9 @@ def run_reent(program):
         # fresh dictionaries: CPython hands a just-released dict back from its free list, so a later write
         # through a dangling pointer to a released cache dict lands in one of these
         state['witness'] = [dict() for _ in range(24)]
+        # likewise for tuples (a released resolution-order snapshot): recycled as tuples of plain integers, so that code
+        # still iterating the released tuple trips over objects that are no registries
+        state['junk'] = [tuple([7000 + i] * n) for i in range(60) for n in (1, 2, 3)]
 
     base_lookup = AdapterLookup if flav == 0 else VerifyingAdapterLookup
 
@@ -611,6 +616,21 @@ def run_reent(program):
         w['K'], w['ob'] = K, K()
         reg = (HookedRegistry if hooked else (AdapterRegistry if flav == 0 else VerifyingAdapterRegistry))()
         other = (AdapterRegistry if flav == 0 else VerifyingAdapterRegistry)()
+        if pt == 'generation-property':
+            # a base registry whose generation counter is computed: reading it (in _verify / changed) runs Python
+            class GenRegistry(VerifyingAdapterRegistry):
+                @property
+                def _generation(self):
+                    if hooked:
+                        fire()
+                    return self.__dict__.get('_gen', 0)
+
+                @_generation.setter
+                def _generation(self, v):
+                    self.__dict__['_gen'] = v
+            gen = GenRegistry()
+            reg.__bases__ = (gen, other)
+            w['gen'] = gen
         w['reg'], w['other'] = reg, other
         w['f_old'] = _Fac('old', fire if (pt == 'factory' and hooked) else None)
         w['f_new'] = _Fac('new')
@@ -638,7 +658,7 @@ def run_reent(program):
         elif mu == 'changed-only':
             reg._v_lookup.changed(None)
         elif mu == 'rebase':
-            reg.__bases__ = (w['other'],)
+            reg.__bases__ = (w['other'],) if 'gen' not in w else (w['gen'], w['other'])
         else:
             reg.register([w['IR1']], w['P'], '', w['f_new'])
             reg.lookup([w['IR0']], w['Q'], '')            # a re-entrant lookup of another key fills the fresh caches
@@ -760,6 +780,8 @@ def run_reent(program):
     state['fired'] = False
     gc.collect()
     probes = [w['IR0'], w['IR1'], w['P'], w['f_old'], providedBy(w['ob']) if pt != 'providedBy-descriptor' else w['IR1']]
+    if 'gen' in w:
+        probes.append(w['gen'])
     try:
         if pt == 'value-destructor':
             # interruption point: the uncached lookup mutates; releasing the caches runs the destructor, which re-enters
@@ -793,6 +815,13 @@ def run_reent(program):
             call(w, True)
         except Exception:   # noqa
             pass
+        if 'gen' in w:
+            # changed() itself reads the generations: re-enter it from there
+            state['fired'] = False
+            try:
+                reg._v_lookup.changed(None)
+            except Exception:   # noqa
+                pass
     state['hook'] = None
     state['witness'] = []
     reg._v_lookup.changed(None)
